@@ -5,11 +5,11 @@
      fteik3d_p1_ok_true        the gradient assembly (fteik3d_p1) only performs in-range accesses under sgn_inv3
      fteik3d_ok_true           fteik3d only performs in-range accesses (needs TruncDivLaw only: holds for the reals and for binary64)
    `f_ok true false args = true` : index obligations on, divisor obligations off.
-   Compile proofs/SafetyTools.v, Safety2d.v, Safety3d.v, Solve2dProofs.v, SafetySolve2d.v first. *)
+   Compile proofs/SafetyTools.v, SafetySolveTools.v, Safety2d.v (sgn_ok only), Safety3d.v first. *)
 From Coq Require Import ZArith List Bool Lia Reals.
 From FT.lib Require Import Num Arr ArrLemmas.
 From FT.gen Require Import Common Fteik3d.
-From FT.proofs Require Import SafetyTools Safety3d SafetySolve2d.
+From FT.proofs Require Import SafetyTools SafetySolveTools Safety3d.
 From FT.proofs Require Safety2d.
 Import ListNotations.
 Open Scope Z_scope.
